@@ -277,12 +277,14 @@ ZipScan(rest, ids, fix1, rootOk) ==
        THEN ZipScan(Tail(rest), ids, fix1, rootOk)
        ELSE IF s # <<>> \/ rootOk THEN ZipScan(Tail(rest), ids \cup {s}, fix1, rootOk)         \* DEVIATION D2
        ELSE ZipScan(Tail(rest), ids, fix1, rootOk)
+\* os.path.dirname of a normalised relative path
+DirNameN(s) == LET I == {i \in 1..Len(s) : s[i] = SL} IN IF I = {} THEN <<>> ELSE SubSeq(s, 1, Max(I) - 1)
 RECURSIVE TarScan(_, _, _, _, _)      \* rest: all directory members, sorted; sp: the ones holding a state point file
 TarScan(rest, ids, skip, rootOk, sp) ==
   IF rest = <<>> THEN ids
   ELSE LET s == Head(rest) IN
        \* "skip all sub-dirs of identified dirs": a skipped directory is added to the set, so the whole sub-tree is skipped
-       IF s # <<>> /\ DirName(s) \in skip THEN TarScan(Tail(rest), ids, skip \cup {s}, rootOk, sp)
+       IF s # <<>> /\ DirNameN(s) \in skip THEN TarScan(Tail(rest), ids, skip \cup {s}, rootOk, sp)
        ELSE IF s \in sp /\ (s # <<>> \/ rootOk) THEN TarScan(Tail(rest), ids \cup {s}, skip \cup {s}, rootOk, sp) \* DEVIATION D2
        ELSE TarScan(Tail(rest), ids, skip, rootOk, sp)
 Under(b, d) == IF d = <<>> THEN b ELSE IF b = <<>> THEN JoinSL(d) ELSE b \o <<SL>> \o JoinSL(d)
@@ -308,28 +310,28 @@ ImportOf(J, P, kind, F, cb) ==
       IdC == {x \in Cand : x.s \in Ids}
       \* the job an identified directory becomes: 0 = a job the exported project does not have
       \* (when several jobs were written to one path, the files of the last one are read)
-      Who(x) == LET w == Max({i \in In : N[i] = x.b /\ x.d \in SpD(i)}) IN IF SelfSp(J[w], x.d) THEN w ELSE 0
-      Alien  == \E x \in IdC : Who(x) = 0
-      DupJob == \E x, y \in IdC : x # y /\ Who(x) # 0 /\ Who(x) = Who(y)     \* "identified jobs are not unique": the import raises
-      Ident(i) == i \in In /\ N[i] \in Ids /\ LastDup(i)                      \* the job's own directory is identified
-      Imp(i)   == \E x \in IdC : Who(x) = i
+      who == [x \in IdC |-> LET w == Max({i \in In : N[i] = x.b /\ x.d \in SpD(i)}) IN IF SelfSp(J[w], x.d) THEN w ELSE 0]
+      Alien  == \E x \in IdC : who[x] = 0
+      DupJob == \E x, y \in IdC : x # y /\ who[x] # 0 /\ who[x] = who[y]     \* "identified jobs are not unique": the import raises
+      ident == [i \in 1..n |-> i \in In /\ N[i] \in Ids /\ LastDup(i)]         \* the job's own directory is identified
+      imp   == [i \in 1..n |-> \E x \in IdC : who[x] = i]
       Into(i)  == IF kind = "zip" THEN {j \in 1..n : ZipPre(N[i], N[j]) /\ SubPath(N[i], N[j])}
                   ELSE {j \in In : SubPath(N[i], N[j])}
       Stray    == IF kind = "zip"
-                  THEN UNION {{j \in 1..n : ZipPre(N[i], N[j]) /\ ~SubPath(N[i], N[j])} : i \in {i \in 1..n : Ident(i)}}
+                  THEN UNION {{j \in 1..n : ZipPre(N[i], N[j]) /\ ~SubPath(N[i], N[j])} : i \in {i \in 1..n : ident[i]}}
                   ELSE {}
       Covers(i, j) == (J[j].doc => J[i].doc) /\ (J[j].nested => J[i].nested) /\ (J[j].embed = "none" \/ J[i].embed # "none") /\ (J[j].odd => J[i].odd)
       \* zip: the members copied into a job are the archive names within its directory (_is_within / startswith);
       \* every payload file of the job, whatever its name, must be among them
       ZipHasAll(i) == kind # "zip" \/ ~J[i].odd \/ \A f \in OddFiles : ZipPre(N[i], Under(N[i], f))
-      Exact(i) == Ident(i) /\ ZipHasAll(i) /\ \A j \in Into(i) \ {i} : N[j] = N[i] /\ Covers(i, j)
+      exact == [i \in 1..n |-> ident[i] /\ ZipHasAll(i) /\ \A j \in Into(i) \ {i} : N[j] = N[i] /\ Covers(i, j)]
       none == [i \in 1..n |-> FALSE]
   IN \* clean raises after the analysis (ident is what the analysis identified):
      \* tarfile.extractall(filter="data") refuses members outside the extraction directory (Python >= 3.12);
      \* archives check that the identified jobs are unique before anything is copied
      IF (kind = "tar" /\ Esc # {}) \/ (kind # "dir" /\ DupJob)
-     THEN [ident |-> [i \in 1..n |-> Imp(i)], imp |-> none, exact |-> none, stray |-> FALSE, raises |-> TRUE, outside |-> FALSE]
-     ELSE [ident |-> [i \in 1..n |-> Imp(i)], imp |-> [i \in 1..n |-> Imp(i)], exact |-> [i \in 1..n |-> Exact(i)],
+     THEN [ident |-> imp, imp |-> none, exact |-> none, stray |-> FALSE, raises |-> TRUE, outside |-> FALSE]
+     ELSE [ident |-> imp, imp |-> imp, exact |-> exact,
            stray |-> Stray # {} \/ Alien, raises |-> FALSE, outside |-> kind = "dir" /\ Esc # {}]
 
 Outcome(J, pr, pskind, kind, F, cb) ==
@@ -403,8 +405,9 @@ ParseBack(sch, C) ==
 (* cases *)
 IdIdx == {i \in 1..Len(Tab) : Tab[i].k = "id"}
 IdTbl == IF MODE = "universe" THEN [u \in 1..NU |-> Tab[CHOOSE i \in IdIdx : Tab[i].u = u].r] ELSE <<>>
+OddOf(u) == u \in {2, 17}          \* which universe jobs carry the unusual-names payload
 EmbedOf(u) == IF u % 6 = 1 THEN "self" ELSE IF u % 6 = 4 THEN "foreign" ELSE "none"
-JobOf(u) == [u |-> u, sp |-> Universe[u], id |-> IdTbl[u], doc |-> u % 3 # 0, nested |-> u % 2 = 1, embed |-> EmbedOf(u), odd |-> u % 5 = 2]
+JobOf(u) == [u |-> u, sp |-> Universe[u], id |-> IdTbl[u], doc |-> u % 3 # 0, nested |-> u % 2 = 1, embed |-> EmbedOf(u), odd |-> OddOf(u)]
 Perms(S) == LET m == Cardinality(S) IN {s \in [1..m -> S] : \A i, j \in 1..m : i # j => s[i] # s[j]}
 \* a case is kept small (state = [tag, us, ps]); the jobs are looked up when a theorem is evaluated:
 \* universe mode: us = universe indices in listing order; file mode: tag = line of the harness file, us = 1..n
@@ -497,7 +500,7 @@ OutCase(x) == LET J == JobsOf(x)  ps == PathSpecs[x.ps]  n == Len(J)
 WireSeg(s) == [k |-> s.k, t |-> s.t, kp |-> s.kp]
 Describe == <<[universe |-> [u \in 1..NU |-> ToWire(Universe[u])],
                leaves |-> LET ls == SetToSeq(Leaves) IN [i \in 1..Len(ls) |-> ToWire(ls[i])],
-               doc |-> [u \in 1..NU |-> u % 3 # 0], nested |-> [u \in 1..NU |-> u % 2 = 1], embed |-> [u \in 1..NU |-> EmbedOf(u)], odd |-> [u \in 1..NU |-> u % 5 = 2],
+               doc |-> [u \in 1..NU |-> u % 3 # 0], nested |-> [u \in 1..NU |-> u % 2 = 1], embed |-> [u \in 1..NU |-> EmbedOf(u)], odd |-> [u \in 1..NU |-> OddOf(u)],
                filetoks |-> SetToSeq(FileToks), dirtoks |-> SetToSeq(DirToks), deep2toks |-> SetToSeq(Deep2Toks),
                pathspecs |-> [p \in 1..Len(PathSpecs) |-> [name |-> PathSpecs[p].name, kind |-> PathSpecs[p].kind,
                                                           segs |-> [t \in 1..Len(PathSpecs[p].segs) |-> WireSeg(PathSpecs[p].segs[t])]]]]>>
